@@ -11,12 +11,16 @@
 //! timeout_num <n>                     -> ok | refused   script-level `timeout_ms(n)` (real Runtime)
 //! show                                -> program=… args=[…] cwd=… env=[k=v,…] stdin=… out=… err=… timeout=<n|none>
 //! validate                            -> ok program=… … timeout=<n> | err <name>      (real validate)
-//! run <allow:0|1>                     -> denied spawn=<0|1> | invalid <name> spawn=<0|1>
+//! run <allow:0|1> [flat|loop|fn|box]  -> denied spawn=<0|1> | invalid <name> spawn=<0|1>
 //!                                        | spawned argv=[…] cwd=… env=[k=v,… sorted] stdin=… out=… err=…
 //!                                        the history is rendered as a NaijaScript program and run through
 //!                                        lexer → parser → resolver → Runtime::new_with_host_policy;
 //!                                        `spawn=` is whether the echo child left its report file, and the
-//!                                        `spawned` line is what the *child* observed
+//!                                        `spawned` line is what the *child* observed. The optional shape
+//!                                        says how the calls are laid out: straight-line (default), one
+//!                                        call per iteration of a `jasi` loop over arrays of the texts, by
+//!                                        a function mutating the captured command, or on a command made by
+//!                                        a function, kept in an array element and passed through a function
 //! spawn                               -> as `run 1`, through the public API (validate + sys::process::run)
 //! ```
 //! `run`/`spawn` need a history of the form `new <this binary>`, `arg "proc"`, `arg "child"`,
@@ -55,6 +59,7 @@ pub fn main(args: &[String]) -> i32 {
         Some("gen") => generate(&args[1..]),
         Some("run") => run(&args[1..]),
         Some("child") => child(),
+        Some("render") => render(),
         _ => {
             eprintln!(
                 "usage: nvh proc gen --seed S --n N --spawn M --dir D [--big 0|1] | nvh proc run --dir D < requests"
@@ -509,22 +514,168 @@ fn representable(program: &str, ops: &[OpRec]) -> bool {
         })
 }
 
+/// How the builder calls of a history are laid out in the rendered NaijaScript program. The op
+/// sequence — and therefore the expected command — is the same for every shape.
+#[derive(Clone, Copy, Debug, PartialEq, Eq)]
+enum Shape {
+    /// straight-line calls at top level
+    Flat,
+    /// one builder call per iteration of a `jasi` loop over arrays holding the texts, with frame
+    /// traffic in the body and after the loop
+    Loop,
+    /// every call made by a function that takes no command and mutates the captured `cmd`
+    Func,
+    /// the command is made by a function, stored in an array element and mutated there; then taken
+    /// out, passed through a function that mutates its parameter and returns it, call by call
+    Boxed,
+}
+
+fn parse_shape(w: &str) -> Option<Shape> {
+    match w {
+        "flat" => Some(Shape::Flat),
+        "loop" => Some(Shape::Loop),
+        "fn" => Some(Shape::Func),
+        "box" => Some(Shape::Boxed),
+        _ => None,
+    }
+}
+
+fn shape_name(s: Shape) -> &'static str {
+    match s {
+        Shape::Flat => "flat",
+        Shape::Loop => "loop",
+        Shape::Func => "fn",
+        Shape::Boxed => "box",
+    }
+}
+
+/// `(kind, text 1, text 2, number)` of a builder call, the texts as NaijaScript literals.
+fn op_fields(op: &OpRec) -> Option<Option<(u32, String, String, String)>> {
+    let e = || "\"\"".to_string();
+    let z = || "0".to_string();
+    let pol = |p: OutputPolicy| match p {
+        OutputPolicy::Capture => 0,
+        OutputPolicy::Inherit => 1,
+        OutputPolicy::Null => 2,
+    };
+    Some(Some(match op {
+        OpRec::Arg(v) => (0, ns_literal(v)?, e(), z()),
+        OpRec::Env(k, v) => (1, ns_literal(k)?, ns_literal(v)?, z()),
+        OpRec::Cwd(v) => (2, ns_literal(v)?, e(), z()),
+        OpRec::StdinText(v) => (3, ns_literal(v)?, e(), z()),
+        OpRec::StdinInherit => (4, e(), e(), z()),
+        OpRec::StdinNull => (5, e(), e(), z()),
+        OpRec::Out(p) => (6 + pol(*p), e(), e(), z()),
+        OpRec::Err(p) => (9 + pol(*p), e(), e(), z()),
+        OpRec::Timeout(t) => (12, e(), e(), t.to_string()),
+        OpRec::TimeoutNum(n) => (12, e(), e(), n.to_string()),
+        OpRec::Clone => return Some(None),
+    }))
+}
+
+/// One direct builder call on `recv`.
+fn direct_call(recv: &str, op: &OpRec) -> Option<String> {
+    Some(match op {
+        OpRec::Arg(v) => format!("{recv}.arg({})\n", ns_literal(v)?),
+        OpRec::Cwd(v) => format!("{recv}.cwd({})\n", ns_literal(v)?),
+        OpRec::Env(k, v) => format!("{recv}.env({}, {})\n", ns_literal(k)?, ns_literal(v)?),
+        OpRec::StdinText(v) => format!("{recv}.stdin_text({})\n", ns_literal(v)?),
+        OpRec::StdinInherit => format!("{recv}.stdin_inherit()\n"),
+        OpRec::StdinNull => format!("{recv}.stdin_null()\n"),
+        OpRec::Out(p) => format!("{recv}.stdout_{}()\n", out_name(*p)),
+        OpRec::Err(p) => format!("{recv}.stderr_{}()\n", out_name(*p)),
+        OpRec::Timeout(t) => format!("{recv}.timeout_ms({t})\n"),
+        OpRec::TimeoutNum(n) => format!("{recv}.timeout_ms({n})\n"),
+        OpRec::Clone => String::new(),
+    })
+}
+
+/// `if` chain that makes the builder call number `k` on `recv` with the operands `x`, `y`, `n`.
+fn dispatch(recv: &str, k: &str, x: &str, y: &str, n: &str) -> String {
+    let calls = [
+        format!("{recv}.arg({x})"),
+        format!("{recv}.env({x}, {y})"),
+        format!("{recv}.cwd({x})"),
+        format!("{recv}.stdin_text({x})"),
+        format!("{recv}.stdin_inherit()"),
+        format!("{recv}.stdin_null()"),
+        format!("{recv}.stdout_capture()"),
+        format!("{recv}.stdout_inherit()"),
+        format!("{recv}.stdout_null()"),
+        format!("{recv}.stderr_capture()"),
+        format!("{recv}.stderr_inherit()"),
+        format!("{recv}.stderr_null()"),
+        format!("{recv}.timeout_ms({n})"),
+    ];
+    let mut s = String::new();
+    for (i, c) in calls.iter().enumerate() {
+        s.push_str(&format!("    if to say ({k} na {i}) start\n        {c}\n    end\n"));
+    }
+    s
+}
+
 /// The history as a NaijaScript program ending in `cmd.run()`.
-fn render_script(program: &str, ops: &[OpRec], with_run: bool) -> Option<String> {
-    let mut s = format!("make cmd get command({})\n", ns_literal(program)?);
+fn render_script(program: &str, ops: &[OpRec], shape: Shape, with_run: bool) -> Option<String> {
+    let prog = ns_literal(program)?;
+    let mut fields: Vec<(u32, String, String, String)> = Vec::new();
     for op in ops {
-        match op {
-            OpRec::Arg(v) => s.push_str(&format!("cmd.arg({})\n", ns_literal(v)?)),
-            OpRec::Cwd(v) => s.push_str(&format!("cmd.cwd({})\n", ns_literal(v)?)),
-            OpRec::Env(k, v) => s.push_str(&format!("cmd.env({}, {})\n", ns_literal(k)?, ns_literal(v)?)),
-            OpRec::StdinText(v) => s.push_str(&format!("cmd.stdin_text({})\n", ns_literal(v)?)),
-            OpRec::StdinInherit => s.push_str("cmd.stdin_inherit()\n"),
-            OpRec::StdinNull => s.push_str("cmd.stdin_null()\n"),
-            OpRec::Out(p) => s.push_str(&format!("cmd.stdout_{}()\n", out_name(*p))),
-            OpRec::Err(p) => s.push_str(&format!("cmd.stderr_{}()\n", out_name(*p))),
-            OpRec::Timeout(t) => s.push_str(&format!("cmd.timeout_ms({t})\n")),
-            OpRec::TimeoutNum(n) => s.push_str(&format!("cmd.timeout_ms({n})\n")),
-            OpRec::Clone => {}
+        if let Some(f) = op_fields(op)? {
+            fields.push(f);
+        }
+    }
+    let mut s = String::new();
+    match shape {
+        Shape::Flat => {
+            s.push_str(&format!("make cmd get command({prog})\n"));
+            for op in ops {
+                s.push_str(&direct_call("cmd", op)?);
+            }
+        }
+        Shape::Loop => {
+            let col = |f: &dyn Fn(&(u32, String, String, String)) -> String| {
+                fields.iter().map(f).collect::<Vec<_>>().join(", ")
+            };
+            s.push_str(&format!("make cmd get command({prog})\n"));
+            s.push_str(&format!("make kinds get [{}]\n", col(&|f| f.0.to_string())));
+            s.push_str(&format!("make xs get [{}]\n", col(&|f| f.1.clone())));
+            s.push_str(&format!("make ys get [{}]\n", col(&|f| f.2.clone())));
+            s.push_str(&format!("make ns get [{}]\n", col(&|f| f.3.clone())));
+            s.push_str("make i get 0\nmake junk get \"j\"\n");
+            s.push_str(&format!("jasi (i small pass {}) start\n    make k get kinds[i]\n", fields.len()));
+            s.push_str(&dispatch("cmd", "k", "xs[i]", "ys[i]", "ns[i]"));
+            s.push_str("    junk get \"frame traffic \" add xs[i] add \" in round {i}\"\n    i get i add 1\nend\n");
+            s.push_str("make note get \"after {i} rounds: \" add junk add \" / \" add junk\n");
+            s.push_str("make note2 get note add \" and some more text built after the loop {i}\"\n");
+        }
+        Shape::Func => {
+            s.push_str(&format!("make cmd get command({prog})\n"));
+            s.push_str("do apply(k, x, y, n) start\n");
+            s.push_str(&dispatch("cmd", "k", "x", "y", "n"));
+            s.push_str("    make junk get \"frame traffic \" add x add \" in call {k}\"\nend\n");
+            for f in &fields {
+                s.push_str(&format!("apply({}, {}, {}, {})\n", f.0, f.1, f.2, f.3));
+            }
+            s.push_str("make done get \"done\"\n");
+            s.push_str("make note get \"after the calls: {done} \" add done add \" / \" add done\n");
+            s.push_str("make note2 get note add \" and some more text built afterwards {done}\"\n");
+        }
+        Shape::Boxed => {
+            s.push_str("do mk(p) start\n    make c get command(p)\n    return c\nend\n");
+            s.push_str("do via(c, k, x, y, n) start\n");
+            s.push_str(&dispatch("c", "k", "x", "y", "n"));
+            s.push_str("    make junk get \"frame traffic \" add x add \" in call {k}\"\n    return c\nend\n");
+            s.push_str(&format!("make box get [0, mk({prog})]\n"));
+            let direct: Vec<&OpRec> = ops.iter().filter(|o| !matches!(o, OpRec::Clone)).collect();
+            let half = direct.len() / 2;
+            for op in &direct[..half] {
+                s.push_str(&direct_call("box[1]", op)?);
+            }
+            s.push_str("make cmd get box[1]\n");
+            for f in &fields[half..] {
+                s.push_str(&format!("cmd get via(cmd, {}, {}, {}, {})\n", f.0, f.1, f.2, f.3));
+            }
+            s.push_str("make done get \"done\"\n");
+            s.push_str("make note get \"after the calls: {done} \" add done add \" / \" add done\n");
         }
     }
     if with_run {
@@ -727,7 +878,7 @@ fn parent_env() -> BTreeMap<Vec<u8>, Vec<u8>> {
 }
 
 /// `run <allow>` (script route) or `spawn` (API route).
-fn do_run(h: &Hist, caps: &ProcessCaps, allow: Option<bool>) -> (String, Vec<String>) {
+fn do_run(h: &Hist, caps: &ProcessCaps, allow: Option<bool>, shape: Shape) -> (String, Vec<String>) {
     let Some(report) = report_path(h) else { return ("bad-op".into(), vec![]) };
     let _ = std::fs::remove_file(&report);
     let _ = std::fs::remove_file(format!("{report}.tmp"));
@@ -739,7 +890,7 @@ fn do_run(h: &Hist, caps: &ProcessCaps, allow: Option<bool>) -> (String, Vec<Str
     // outcome: Ok(()) spawned and finished, Err(kind text)
     let outcome: Result<(), String> = match allow {
         Some(allow) => {
-            let Some(src) = render_script(&h.program, &h.ops, true) else {
+            let Some(src) = render_script(&h.program, &h.ops, shape, true) else {
                 return ("bad-op".into(), vec![]);
             };
             match run_script(&src, HostPolicy { allow_process: allow, process: *caps }) {
@@ -959,11 +1110,50 @@ fn step(w: &[&str], caps: &mut ProcessCaps, hist: &mut Option<Hist>) -> (String,
                         Err(e) => (format!("err other:{}", err_token(&format!("{e:?}"))), vec![]),
                     }
                 }
-                ["run", a @ ("0" | "1")] => do_run(h, caps, Some(*a == "1")),
-                ["spawn"] => do_run(h, caps, None),
+                ["run", a @ ("0" | "1")] => do_run(h, caps, Some(*a == "1"), Shape::Flat),
+                ["run", a @ ("0" | "1"), shape] => {
+                    let Some(shape) = parse_shape(shape) else { return bad() };
+                    do_run(h, caps, Some(*a == "1"), shape)
+                }
+                ["spawn"] => do_run(h, caps, None, Shape::Flat),
                 _ => bad(),
             }
         }
+    }
+}
+
+/// `nvh proc render`: the NaijaScript program of the last `run` request of the history on stdin.
+fn render() -> i32 {
+    let mut hist: Option<Hist> = None;
+    let mut caps = ProcessCaps::defaults();
+    let mut last: Option<String> = None;
+    for line in util::stdin_lines() {
+        let w: Vec<&str> = line.split_whitespace().collect();
+        match w.as_slice() {
+            ["run", _] | ["run", _, _] => {
+                let shape = w.get(2).and_then(|x| parse_shape(x)).unwrap_or(Shape::Flat);
+                if let Some(h) = &hist {
+                    last = render_script(&h.program, &h.ops, shape, true);
+                }
+            }
+            ["spawn"] | ["show"] | ["validate"] | ["timeout_num", _] => {}
+            _ => {
+                let _ = step(&w, &mut caps, &mut hist);
+            }
+        }
+        if let ["timeout_num", n] = w.as_slice()
+            && let (Some(h), Ok(n)) = (hist.as_mut(), n.parse::<u64>())
+            && n > 0
+        {
+            h.ops.push(OpRec::TimeoutNum(n));
+        }
+    }
+    match last {
+        Some(src) => {
+            print!("{src}");
+            0
+        }
+        None => 1,
     }
 }
 
@@ -982,6 +1172,10 @@ fn run(args: &[String]) -> i32 {
     let mut fails = 0u64;
     let mut spawns = 0u64;
     let mut skipping = false;
+    // a change that makes children hang costs one full timeout per spawn: after a few failing
+    // run/spawn requests the remaining ones are answered `skipped` (the check ignores those lines)
+    let max_spawn_fails = util::opt_u64(args, "--max-spawn-fails", 3);
+    let mut spawn_fails = 0u64;
     for (lineno, line) in lines.iter().enumerate() {
         let w: Vec<&str> = line.split_whitespace().collect();
         if matches!(w.first(), Some(&"new")) {
@@ -991,10 +1185,18 @@ fn run(args: &[String]) -> i32 {
             out.line("skipped");
             continue;
         }
+        let is_spawn_req = matches!(w.first(), Some(&"run") | Some(&"spawn"));
+        if is_spawn_req && spawn_fails >= max_spawn_fails {
+            out.line("skipped");
+            continue;
+        }
         match util::catch(|| step(&w, &mut caps, &mut hist)) {
             Ok((ans, bad)) => {
                 if ans.starts_with("spawned") {
                     spawns += 1;
+                }
+                if is_spawn_req && !bad.is_empty() {
+                    spawn_fails += 1;
                 }
                 out.line(&ans);
                 for msg in bad {
@@ -1006,6 +1208,9 @@ fn run(args: &[String]) -> i32 {
                 out.line("panic");
                 eprintln!("PANIC {} {}", lineno + 1, msg.replace('\n', " "));
                 skipping = true;
+                if is_spawn_req {
+                    spawn_fails += 1;
+                }
             }
         }
     }
@@ -1014,6 +1219,9 @@ fn run(args: &[String]) -> i32 {
 }
 
 // ------------------------------------------------------------------------------------ generator
+
+/// Default timeout of spawn histories.
+const SPAWN_TIMEOUT_MS: u32 = 10_000;
 
 const NASTY: &[&str] = &[
     "", " ", "a b", "  lead", "trail  ", "a  b   c", "\"q\"", "'s'", "it's", "$HOME", "${PATH}", "$(id)", "`id`",
@@ -1277,8 +1485,9 @@ fn gen_spawn_history(rng: &mut Rng, out: &mut Out, nvh: &str, dir: &str, id: &st
             87..=88 => OpRec::StdinInherit,
             89..=92 => OpRec::Out(*rng.pick(&[OutputPolicy::Capture, OutputPolicy::Inherit, OutputPolicy::Null])),
             93..=95 => OpRec::Err(*rng.pick(&[OutputPolicy::Capture, OutputPolicy::Inherit, OutputPolicy::Null])),
-            // generous only: a loaded machine must never turn a sample into a timeout
-            96..=97 => OpRec::TimeoutNum(*rng.pick(&[600_000u64, 900_000, 3_600_000])),
+            // generous (hundreds of times a normal child run) but bounded: a change that makes children
+            // hang must not cost a quarter of an hour per sample
+            96..=97 => OpRec::TimeoutNum(*rng.pick(&[SPAWN_TIMEOUT_MS as u64, 15_000, 30_000])),
             _ => OpRec::Clone,
         };
         ops.push(op);
@@ -1306,7 +1515,11 @@ fn gen_spawn_history(rng: &mut Rng, out: &mut Out, nvh: &str, dir: &str, id: &st
     }
     let s = shadow(&ops);
     let mut caps = ProcessCaps::defaults();
+    caps.default_timeout_ms = SPAWN_TIMEOUT_MS;
     let m = metrics(nvh, &s, caps.default_timeout_ms);
+    // limits that may be set exactly to what the command uses; never the timeout limit when the
+    // command asks for a long one (it must stay refused)
+    let exact_ok = |i: usize| i != 12 || m.v[12] <= 60_000;
     if kind == 2 {
         // one limit exactly one below what the command needs, the others exactly met or default
         let candidates: Vec<usize> = [0usize, 1, 2, 3, 4, 5, 6, 7, 8, 9, 12]
@@ -1316,7 +1529,7 @@ fn gen_spawn_history(rng: &mut Rng, out: &mut Out, nvh: &str, dir: &str, id: &st
         let which = *rng.pick(&candidates);
         let mut v: Vec<u32> = caps_fields(&caps).iter().map(|(_, x)| *x).collect();
         for i in [0usize, 1, 2, 3, 4, 5, 6, 7, 8, 9, 12] {
-            if rng.chance(1, 2) {
+            if rng.chance(1, 2) && exact_ok(i) {
                 v[i] = clamp32(m.v[i] as i128);
             }
         }
@@ -1326,7 +1539,7 @@ fn gen_spawn_history(rng: &mut Rng, out: &mut Out, nvh: &str, dir: &str, id: &st
         // every limit met exactly
         let mut v: Vec<u32> = caps_fields(&caps).iter().map(|(_, x)| *x).collect();
         for i in [0usize, 1, 2, 3, 4, 5, 6, 7, 8, 9, 12] {
-            if rng.chance(2, 3) {
+            if rng.chance(2, 3) && exact_ok(i) {
                 v[i] = clamp32(m.v[i] as i128);
             }
         }
@@ -1344,7 +1557,14 @@ fn gen_spawn_history(rng: &mut Rng, out: &mut Out, nvh: &str, dir: &str, id: &st
         if allow && rng.chance(1, 4) {
             out.line("spawn");
         }
-        out.line(&format!("run {}", u8::from(allow)));
+        // one or two script layouts per history; three in four are not straight-line
+        let shapes = [Shape::Flat, Shape::Loop, Shape::Func, Shape::Boxed];
+        let first = rng.below(4) as usize;
+        out.line(&format!("run {} {}", u8::from(allow), shape_name(shapes[first])));
+        if rng.chance(1, 2) {
+            let second = (first + 1 + rng.below(3) as usize) % 4;
+            out.line(&format!("run {} {}", u8::from(allow), shape_name(shapes[second])));
+        }
     } else {
         out.line("spawn");
     }
